@@ -134,48 +134,49 @@ def r12_2_data_guards(chk):
         and int_norm(l)[2][2] == "ndim" for l in pc)]
     chk.require(bool(too_many), "R12.2", "more-than-2-dimensions-raises",
                 "data sets with more than two dimensions are not rejected", dd.where)
-    # row counts
+    # row counts: before the first row is yielded, a raise conditioned on the raw leading dimensions of *all* mapped data
+    # sets (inlined value-flow summary of the chunk generator and of the constructor)
     base = ix.get_class("SourceDataWrapper")
-    cands = [f for f in base.methods.values() if "shape[0]" in norm(f.node) and any(isinstance(n, ast.Raise)
-                                                                                   for n in walk_local(f.node))
-             and f.name not in ("__init__",)]
-    init = base.lookup("__init__")
-    in_init = "!= total_n_rows" in norm(init.node) and "raise" in norm(init.node)
-    chk.require(bool(cands) or in_init, "R12.2", "row-count-guard-exists",
+    DS, MAP = A(SELF, "_data_source"), A(SELF, "_mapping")
+
+    def raw_dims(t):
+        """-> list of (iterable, element term) for comprehensions over the mapping inside t"""
+        out = []
+        for x in subterms(t):
+            if x[0] == "comp" and len(x[3]) == 1 and contains(x[3][0][1], lambda y: y == MAP or y == ("param", "mapping")):
+                elt = x[2][1] if x[1] == "dict" else x[2]
+                out.append((x[3][0][1], elt))
+        return out
+
+    def is_raw(elt):
+        return (elt[0] == "sub" and elt[2] == K(0) and elt[1][0] == "attr" and elt[1][2] == "shape" and
+                elt[1][1][0] == "sub" and contains(elt[1][1][1], lambda y: y == DS or y == ("param", "data_source"))) or \
+            (is_call(elt, "len", 1) and elt[2][0][0] == "sub")
+    guards = []
+    for fn in (base.lookup("make_chunked_generator"), base.lookup("__init__")):
+        if fn is None:
+            continue
+        chk.consult(fn)
+        su = chk.terms.inline(fn, 2)
+        first_yield = min((i for i, e in enumerate(su.effects) if e.kind == "yield"), default=len(su.effects))
+        for i, e in enumerate(su.effects):
+            if e.kind != "raise":
+                continue
+            dims = [d for l in e.pc for d in raw_dims(l)]
+            if dims:
+                guards.append((fn, i, first_yield, dims, e))
+    chk.require(bool(guards), "R12.2", "row-count-guard-exists",
                 "nothing compares the numbers of rows of the data sets of a frame (a shorter first data set truncates the "
                 "others; a one-row data set is broadcast)", base.where)
-    for f in cands:
-        chk.consult(f)
-        comps = [n for n in walk_local(f.node) if isinstance(n, (ast.DictComp, ast.SetComp, ast.ListComp, ast.GeneratorExp))
-                 and "shape[0]" in norm(n)]
-        raw = all(_is_raw_leading_dim(c.value if isinstance(c, ast.DictComp) else c.elt) for c in comps) and bool(comps)
-        over_all = all("self._mapping.values()" in norm(c.generators[0].iter) or "mapping.values()" in
-                       norm(c.generators[0].iter) for c in comps)
-        chk.require(raw and over_all, "R12.2", f"row-counts-compared-raw:{f.short}",
-                    f"the row-count guard compares `{[norm(c.value if isinstance(c, ast.DictComp) else c.elt) for c in comps]}`"
-                    f", not the raw leading dimension of every mapped data set: longer data sets can be truncated silently",
-                    f.where)
-        gen = base.lookup("make_chunked_generator")
-        g = CFG(gen.node)
-        sc = Scope(ix, gen)
-        gn = g.nodes_where(lambda s_: any(isinstance(c, ast.Call) and f in ix.resolve_call(c, sc)[0]
-                                          for c in walk_expr(header_expr(s_) or ast.Pass())))
-        ys = g.nodes_where(lambda s_: any(isinstance(x, (ast.Yield, ast.YieldFrom)) for x in walk_expr(s_))
-                           and not isinstance(s_, (ast.If, ast.For, ast.While, ast.Try, ast.With)))
-        chk.require(bool(gn) and bool(ys) and all(g.dominated_by(y, gn) for y in ys), "R12.2",
-                    f"row-count-guard-before-first-row:{f.short}", "rows can be loaded before the row counts were compared",
-                    gen.where)
-    chk.floor("row-count guards", len(cands) + int(in_init), 1)
-
-
-def _is_raw_leading_dim(e) -> bool:
-    # <something>[loc].shape[0]   or   len(<something>[loc])
-    if isinstance(e, ast.Subscript) and isinstance(e.value, ast.Attribute) and e.value.attr == "shape" \
-            and try_const(e.slice) == 0:
-        return True
-    if isinstance(e, ast.Call) and isinstance(e.func, ast.Name) and e.func.id == "len" and len(e.args) == 1:
-        return True
-    return False
+    for fn, i, first_yield, dims, e in guards:
+        ok = all(is_raw(elt) and (is_call(it, "values", 0) or is_call(it, "items", 0) or it in (MAP, ("param", "mapping")))
+                 for it, elt in dims)
+        chk.require(ok, "R12.2", f"row-counts-compared-raw:{e.func.short}",
+                    f"the row-count guard compares `{[pp(elt)[:60] for _, elt in dims]}`, not the raw leading dimension of "
+                    f"every mapped data set: longer data sets can be truncated silently", e.where)
+        chk.require(i < first_yield, "R12.2", f"row-count-guard-before-first-row:{e.func.short}",
+                    "rows can be loaded before the row counts were compared", fn.where)
+    chk.floor("row-count guards", len(guards), 1)
 
 
 def r12_3_shared(chk):
